@@ -17,6 +17,7 @@ writing body at the values its run left in the arrays, the model at the call-tim
 notes/C05.md.) The hash of each call is an arbitrary number carried by the operation.
 -/
 import GemseoVerif.Lemmas.C05Hist
+import GemseoVerif.Lemmas.C05Forms
 import Mathlib.Analysis.Real.Sqrt
 import Mathlib.Tactic.Linarith
 import Mathlib.Tactic.NormNum
@@ -633,5 +634,67 @@ example : (outputs (exPlainCfg .simple Policy.copy) exPlain {} exPlainOps).getLa
 -- a self-coupled in-place state is handled by the pinned-tree policy
 example : outputs (exIncCfg .simple ⟨true, true, .coupledPre⟩) exInc {} exIncOps =
     outputs (exIncCfg .simple Policy.copy) exInc {} exIncOps := by decide +kernel
+
+/-! ### The form of a call is not part of its input
+
+The input data of a call are a mapping `{name: array}`; inputs left out take their default value. What a
+call does is a function of the *values* its inputs resolve to (and of the arrays given, for aliasing):
+not of the order in which the items of the dict were inserted — and there is no order among the default
+values either (`cfg.defaults` is indexed by input name). Together with `HistHashOK` (the hash of a call
+is a function `hf` of the resolved values, in input-name order) this is what `runs_at_most_once` and
+`repeated_input_hits` need: the same values passed as `execute()`, as `{b: .., a: ..}` or partially
+defaulted are **one** input. (A hash that depended on the insertion order of the prepared dict — seeded
+change r3m2 — breaks `HistHashOK` in the code: the harness gives one hash token per resolved value.) -/
+
+/-- **call_key_order_irrelevant.** In every state, an execution / a linearization called with a dict
+    and with the same dict whose items are in another order do exactly the same thing (same new
+    state — cache, counters, logs —, same returned data). -/
+theorem call_key_order_irrelevant (cfg : Cfg) (d : Disc) (st : State) {args args' : List (Name × Nat)}
+    (hp : args.Perm args') (hn : (args.map (·.1)).Nodup) (h : Nat) :
+    step cfg d st (.exec args h) = step cfg d st (.exec args' h) ∧
+    ∀ all exe, step cfg d st (.lin all exe args h) = step cfg d st (.lin all exe args' h) := by
+  refine ⟨?_, fun all exe => ?_⟩ <;> simp only [step, prepare_perm cfg st hp hn]
+
+/-- Two inputs `a`, `b` with default values `1`, `2`; `y = a` (first input). -/
+def exCfg2 (kind : Kind) : Cfg :=
+  { kind := kind, tol := 0, pol := Policy.copy, inNames := ["a", "b"], defaults := [some [1], some [2]],
+    outNames := ["y"], dIn := ["a", "b"], dOut := ["y"], runSetsJac := false }
+
+-- non-vacuity: a dict of two items and its reversal
+example : [("a", 1), ("b", 2)].Perm [("b", 2), (("a", 1) : Name × Nat)] ∧
+    (([("a", 1), ("b", 2)] : List (Name × Nat)).map (·.1)).Nodup := by decide
+-- one input (a, b) = (1, 2) in four forms (every input defaulted, all explicit in the order b, a,
+-- partially defaulted, every input defaulted again; then a reopen and a linearization): one run, one entry
+example : (reach (exCfg2 .hdf5) exDisc
+    (fixHist (fun _ => 0) (exCfg2 .hdf5) exDisc {}
+      [.exec [] 9, .new 1 [1], .new 2 [2], .exec [("b", 2), ("a", 1)] 9, .new 3 [2], .exec [("b", 3)] 9,
+       .exec [] 9, .reopen, .lin true true [("a", 1)] 9])).nRun = 1 := by decide +kernel
+example : ((reach (exCfg2 (.memory false)) exDisc
+    (fixHist (fun _ => 0) (exCfg2 (.memory false)) exDisc {}
+      [.exec [] 9, .new 1 [1], .new 2 [2], .exec [("b", 2), ("a", 1)] 9, .new 3 [2], .exec [("b", 3)] 9,
+       .exec [] 9])).full.entries.length = 1) := by decide +kernel
+
+/-! ### Jacobian cached before any outputs, then two inputs within the tolerance of it (non-vacuity)
+
+`SimpleCache` with `t = 1/4`: the Jacobian is cached at `x0 = 1/2` on a cleared cache, then the body is
+executed at `x1 = 3/4` and `x2 = 1/4`, both within `t` of `x0`, not within `t` of each other. The
+outputs of `x1` start a **new** entry (`Simple.storeOutputs` completes the entry only when it is the
+entry of these very inputs), so `x2` is a miss and gets its own outputs: `transparent_tol` on this
+history. (Completing the entry of `x0` with the outputs of `x1` — seeded change r3m1 — serves `[3/4]`
+for `x2`.) -/
+def exOpsJacFirst : List Op :=
+  [.new 1 [1/2], .exec [("a", 1)] 7, .clear, .lin true false [("a", 1)] 7,
+   .new 2 [3/4], .exec [("a", 2)] 8, .new 3 [1/4], .exec [("a", 3)] 9]
+
+example : cmp (1/4) [[3/4]] [[1/2]] = true ∧ cmp (1/4) [[1/4]] [[1/2]] = true ∧
+    cmp (1/4) [[1/4]] [[3/4]] = false ∧ cmp (1/4) [[3/4]] [[1/4]] = false := by decide +kernel
+example : (outputs (exCfg .simple (1/4) Policy.copy) exDisc {} exOpsJacFirst).getLast? =
+    some (.data [[1/4]]) := by decide +kernel
+example : (reach (exCfg .simple (1/4) Policy.copy) exDisc exOpsJacFirst).runLog =
+    [[[1/2]], [[3/4]], [[1/4]]] := by decide +kernel
+-- after the execution at x1 the entry is the one of x1, without the Jacobian of x0
+example : (allEntries (exCfg .simple (1/4) Policy.copy)
+    (reach (exCfg .simple (1/4) Policy.copy) exDisc (exOpsJacFirst.take 6))).map
+      (fun e => (e.1, e.2.1, e.2.2.length)) = [([[3/4]], [[3/4]], 0)] := by decide +kernel
 
 end GV.C05
